@@ -71,7 +71,7 @@ def main(tier, seed, args):
                   'outside': 'more HTLCs; more than one hash (C14)'}
     rep.assumptions = ['node + tokio contracts', 'a single HTLC amount <= money supply', 'select! start index is a free choice (tokio thread_rng_n)']
     rep.trusted = ['mirsym', 'z3', 'node model', 'tokio/futures/std contracts']
-    budget = 110 if tier == 'quick' else 1500
+    budget = 440 if tier == 'quick' else 3000
     configs = []
     cfg, pc = cfg_symbolic(n)
     configs.append(('symbolic[%d htlcs, free]' % n, cfg, pc, [SameResolution(), NoPayAfterRejection(('fee', 'expiry')), Coverage(['pay', 'response:Resolve', 'response:Fail(201a)', 'response:Fail(2019)'])], {}))
